@@ -108,6 +108,11 @@ def r11_1(ctx):
         any(isinstance(s, ast.Assign) and ast.unparse(s.targets[0]) == "val" and ast.unparse(s.value).replace('"', "'") == "'n' if val.startswith('y') else 'y'"
             for s in inv[0].body)
     (ctx.ok(construct, f.loc(inv[0])) if ok else ctx.bad(construct, "the y/n swap for inverted aliases changed", f.loc(a)))
+    construct = "Kconfig._load_config/an inverted alias inverts only what the bool check accepts"
+    conj = [c.replace('"', "'") for c in _conjuncts(inv[0].test)] if inv else []
+    (ctx.ok(construct, f.loc(inv[0])) if any(c in ("val.startswith(('y', 'n'))", "val.startswith(('n', 'y'))", "val[0] in ('y', 'n')", "val[:1] in ('y', 'n')") for c in conj) else
+     ctx.bad(construct, "any text that does not start with `y` is turned into `y` before the bool check sees it: `CONFIG_OLD=foo` sets the replacement to y "
+             "while `CONFIG_NEW=foo` is rejected", f.loc(inv[0]) if inv else f.loc(a)))
     construct = "Kconfig._load_config/`not set` on an inverted alias means y"
     src_u = ast.unparse(u)
     uses = [n for n in ast.walk(f.node) if isinstance(n, ast.Assign) and ast.unparse(n.targets[0]) == "val" and "_deprecated_unset_val" in ast.unparse(n.value)]
